@@ -30,6 +30,9 @@ def make_project(rng, i):
     for k, v in extra.items():
         if k != ".thailint.yaml":
             files[k.replace("src/", "src/inner/deep/" if rng.random() < 0.5 else "lib/")] = v
+    for need in ("lib/", "src/inner/", "tools/"):
+        if not any(f.startswith(need) for f in files):
+            files[need + "extra%d.py" % i] = "def extra%d(a):\n    print(a)\n    return a * %d\n" % (i, rng.randint(1001, 9999))
     for j in range(rng.randint(1, 3)):
         lang = rng.choice(["py", "ts", "rs"])
         funcs = [{"name": "g%d_%d_%d" % (i, j, k), "style": "func", "block": ctrl.gen_chain(rng, ctrl.kinds_for(lang), rng.randint(2, 7))}
